@@ -94,8 +94,8 @@ theorem polyEmpty_true (O : Oracle) (hO : O.Certified) (rows : TL) (n : Nat)
       rcases Nat.mul_eq_zero.mp h0 with h1 | h1
       · exact absurd h1 hr0
       · exact h1
-    simp only [Except.ok.injEq, List.any_eq_true, decide_eq_true_eq] at h
-    obtain ⟨t, ht, hneg⟩ := h
+    simp only [Except.ok.injEq, Bool.and_eq_true, List.any_eq_true, decide_eq_true_eq] at h
+    obtain ⟨_, t, ht, hneg⟩ := h
     rintro ⟨v, hv⟩
     have := (PTerm.holds_of_vars_nil t (hz hn t ht) v).mp (hv t ht)
     exact absurd hneg (by simpa [Rat.not_lt] using this)
@@ -122,12 +122,12 @@ theorem nocols_right (l r : TL) (h : (Gen.list_union l.vars r.vars).length = 0) 
     rw [hn] at this; cases this
 
 /-- the no-column case, other direction: variable-free rows with non-negative constants hold everywhere -/
-theorem polyEmpty_false_nocols (O : Oracle) (rows : TL) (hr : rows ≠ []) (hv : ∀ t ∈ rows, t.vars = [])
+theorem polyEmpty_false_nocols (hg : Gen.emptyNoColsBySign = true) (O : Oracle) (rows : TL) (hr : rows ≠ []) (hv : ∀ t ∈ rows, t.vars = [])
     (h : polyEmpty O rows 0 = .ok false) : ∀ v, TL.holds rows v := by
   unfold polyEmpty at h
   split at h
   · rename_i h0; exact absurd (List.length_eq_zero_iff.mp h0) hr
-  simp only [Nat.mul_zero, ↓reduceIte, Except.ok.injEq, List.any_eq_false, decide_eq_true_eq] at h
+  simp only [Nat.mul_zero, ↓reduceIte, hg, Bool.true_and, Except.ok.injEq, List.any_eq_false, decide_eq_true_eq] at h
   intro v t ht
   exact (PTerm.holds_of_vars_nil t (hv t ht) v).mpr (by simpa [Rat.not_lt] using h t ht)
 
